@@ -329,6 +329,26 @@ theorem parse_render_indirect_encrypted (env : Env R) (d e : Nat → Nat → Lis
     Gap.nil h1 h2 h3 h4 h5 h6 hid hgen h7 h9 hs h11 (fun hb => h12 (by rw [PdfSyntax.encrypted, sh.nb]; exact hb)) h13 hfuel
     Flags.any (any_allows v)
 
+/-- **Encrypted stream objects**: the strings of the stream dictionary are decrypted with the object key, the `file_range`
+    covers exactly the (still encrypted) data: decrypting the data is the business of the stream layer, not of the parser. -/
+theorem parse_stream_encrypted (env : Env R) (d e : Nat → Nat → List UInt8 → List UInt8) (id gen : Nat)
+    (hinv : ∀ s, d id gen (e id gen s) = s) (info : Dict R) (data txt : List UInt8)
+    (hsp : PdfSyntax.SpellsStreamEnc env.parseReal e id gen info data txt) (hk : KeysDistinctE info)
+    (hnd : (keysOf info).Nodup) (hu : namesUtf8E info = true) (hlen : LengthIs env info data.length)
+    {buf : Buf} (hsz : buf.size ≤ 2147483647)
+    (g0 a g1 b g2 g3 g4 rest : List UInt8) (pos fuel : Nat) (hg0 : Gap g0)
+    (ha : PdfSyntax.NatTok a id) (hb : PdfSyntax.NatTok b gen) (hg1 : Gap g1) (hg1ne : g1 ≠ []) (hg2 : Gap g2)
+    (hg2ne : g2 ≠ []) (hid : id ≤ 18446744073709551615) (hgen : gen ≤ 18446744073709551615) (hg3 : Gap g3) (hg4 : Gap g4)
+    (hg4ne : g4 ≠ [])
+    (h : Suffix buf pos (g0 ++ a ++ g1 ++ b ++ g2 ++ kwObj ++ g3 ++ txt ++ g4 ++ kwEndobj ++ rest))
+    (hbnd : Bnd rest) (hfuel : 2 + needE info ≤ fuel) (hdepth : 1 + vdepthE info ≤ maxDepth) :
+    ∃ dataPos, parseIndirectObject (PdfShift.withDec env d) buf fuel pos Flags.any =
+        .ok (((id, gen), streamAt env info (id, gen) dataPos data.length),
+          pos + (g0 ++ a ++ g1 ++ b ++ g2 ++ kwObj ++ g3 ++ txt ++ g4 ++ kwEndobj).length) ∧
+      slice buf dataPos (dataPos + data.length) = data :=
+  parseIndirectObject_stream_enc env d e id gen hinv info data txt hsp hk hnd hu hlen hsz g0 a g1 b g2 g3 g4 rest pos fuel
+    hg0 ha hb hg1 hg1ne hg2 hg2ne hid hgen hg3 hg4 hg4ne h hbnd hfuel hdepth
+
 /-- **A failing decryptor ⇒ `Err`**: a string object whose ciphertext the decryptor rejects is not read as garbage, the
     parse fails (and, by `parse_err_restores_pos`, the cursor is put back). -/
 theorem parse_string_decrypt_fails (env : Env R) (f : Nat → Nat → List UInt8 → Out (List UInt8)) (hdec : env.decrypt = some f)
